@@ -47,6 +47,11 @@ type Box struct {
 	// --spokfile <project>/spokfile; "abs-elsewhere" / "rel-elsewhere" in a sibling directory with an
 	// absolute / relative --spokfile. All of them name the same spokfile, so nothing else may differ.
 	Invoke string
+	// ClosedStdout: the next run's standard output is a pipe nobody reads from any more (`spok ... | head -0`):
+	// the first thing spok prints kills it. Reset after one run.
+	ClosedStdout bool
+	// Cpus: when set (e.g. "0,1"), spok is started under `taskset -c <Cpus>` — it then sees that many CPUs
+	Cpus string
 }
 
 // New creates a sandbox below base with a private copy of the spok binary.
@@ -116,6 +121,7 @@ func (b *Box) ResetFor(name, invoke string) error {
 	}
 	b.Proj = filepath.Join(b.Home, name)
 	b.Invoke = invoke
+	b.Cpus = ""
 	if err := b.Reset(); err != nil {
 		return err
 	}
@@ -216,6 +222,11 @@ func (b *Box) RunWrapped(wrapper []string, cwd string, env []string, timeout tim
 	}
 	cx, cancel := context.WithTimeout(context.Background(), timeout)
 	defer cancel()
+	if b.Cpus != "" {
+		if ts, err := exec.LookPath("taskset"); err == nil {
+			wrapper = append([]string{ts, "-c", b.Cpus}, wrapper...)
+		}
+	}
 	argv := append(append(append([]string(nil), wrapper...), b.Spok), args...)
 	cmd := exec.CommandContext(cx, argv[0], argv[1:]...)
 	cmd.Dir = cwd
@@ -228,6 +239,14 @@ func (b *Box) RunWrapped(wrapper []string, cwd string, env []string, timeout tim
 	cmd.Cancel = func() error { return syscall.Kill(-cmd.Process.Pid, syscall.SIGKILL) }
 	var so, se bytes.Buffer
 	cmd.Stdout, cmd.Stderr = &so, &se
+	if b.ClosedStdout {
+		b.ClosedStdout = false
+		if pr, pw, perr := os.Pipe(); perr == nil {
+			_ = pr.Close()
+			cmd.Stdout = pw
+			defer pw.Close()
+		}
+	}
 	err := cmd.Run()
 	res := Result{Stdout: so.String(), Stderr: se.String()}
 	if cx.Err() != nil {
